@@ -171,4 +171,10 @@ def run(ctx):
     macs = sorted({f.self_ty for f in P.fns.values() if f.impl_trait == "mac::Mac"})
     ctx.check(macs == ["blake2b::Blake2b", "blake2s::Blake2s", "hmac::Hmac<D>", "poly1305::Poly1305"], "floor", "Mac impls", "4 `impl Mac` types, all covered", "the set of `impl Mac` types changed: %s" % macs, key="floor:mac-impls")
     ctx.guard("clone", "objects", lambda: check_clone(ctx, P))
+    # the digests underneath: padding position and zero fill, length fields, sponge padding (structural rules shared with C01)
+    from . import C01 as _C01
+    ctx.guard("padding", "standard_padding", lambda: _C01.check_standard_padding(ctx, P))
+    ctx.guard("length-field", "md", lambda: _C01.check_length_fields(ctx, P))
+    ctx.guard("sponge-pad", "sha3", lambda: _C01.check_sponge_pad(ctx, P))
+
     ctx.not_decided += ["digest and MAC values", "equality of reset state with constructor state beyond the fields listed (tier 2 field-by-field comparison for the non-BLAKE2 hashing contexts is in C02)"]
